@@ -36,7 +36,7 @@ var cfgs = map[string]map[string]tierCfg{
 	"C20": {"quick": {"P20", 24000, 1920, 0, 90}, "thorough": {"P20", 2400000, 192000, 0, 1500}},
 	"C05": {"quick": {"P05", 32000, 0, 0, 90}, "thorough": {"P05", 3200000, 0, 480000, 1500}},
 	"C06": {"quick": {"P06", 32000, 0, 0, 90}, "thorough": {"P06", 2400000, 0, 480000, 1500}},
-	"C07": {"quick": {"P07", 48000, 0, 0, 90}, "thorough": {"P07", 4800000, 0, 960000, 1500}},
+	"C07": {"quick": {"P07", 48000, 0, 8000, 90}, "thorough": {"P07", 4800000, 0, 960000, 1500}},
 	"C10": {"quick": {"P10", 48000, 0, 0, 90}, "thorough": {"P10", 4800000, 0, 0, 1500}},
 	"C13": {"quick": {"P13", 32000, 0, 0, 90}, "thorough": {"P13", 2400000, 0, 480000, 1500}},
 	"C14": {"quick": {"P14", 64000, 0, 0, 90}, "thorough": {"P14", 6400000, 0, 0, 1500}},
